@@ -429,6 +429,9 @@ func (h *histProp) Gen(kind string, idx int64, seed int64, tier string) core.Cas
 	if h.tweak != nil && class != "fixed" && class != "far" && class != "farbig" && class != "midtext" {
 		h.tweak(r, &pc, kind)
 	}
+	if class != "fixed" {
+		pc.Cfg.TameBig()
+	}
 	return core.MkCase(h.id, kind, idx, seed, tier, pc)
 }
 
